@@ -39,6 +39,17 @@ Definition judge_class_tx (r : rule) (bs given : bytes) : N :=
   else if cddl_ok_bytes echo_env r bs && given_degenerate given then 3
   else 2.
 
+(* C03-praos-header-body-flat - a header (or block) whose header body is the single-VRF form with operational_cert and
+   protocol_version written as flat groups: 14 items, the shape of no era (Babbage onwards nests them: 10 items).
+   5 = the two-VRF flat form of Shelley .. Alonzo (pre-Conway, not judged). *)
+Definition flat_env : env := (N_header_body, header_body_flat_praos) :: conway_env.
+Definition tpraos_env : env := (N_header_body, header_body_tpraos) :: conway_env.
+Definition judge_class_header (r : rule) (bs : bytes) : N :=
+  if cddl_ok_bytes conway_env r bs then 0
+  else if cddl_ok_bytes flat_env r bs then 4
+  else if cddl_ok_bytes tpraos_env r bs then 5
+  else 2.
+
 (* 0 = conforms; 1 = known class mint-quantity-outside-int64; 2 = any other violation *)
 Definition judge_class (r : rule) (bs : bytes) : N :=
   if cddl_ok_bytes conway_env r bs then 0
